@@ -20,7 +20,7 @@ CLAIMS = {
         "function: documented argument reduction (odd, 2 pi periodic, reflection; the two-term 2 pi within 1e-19) around two Pade kernels within 1e-14 of the Bernoulli series; complex "
         "dilogarithm: every branch enters the Bernoulli series inside its domain of fast convergence, is exactly sgn S(u) + rest with the documented inversion/reflection formula, the real Horner scheme is the "
         "polynomial, the coefficient table is B_2k/(2k+1)!, and the truncation leaves a relative remainder <= 1e-13.  IEEE level (not the real-arithmetic abstraction): for EVERY double of the domain "
-        "(18 loop functions on [1e-14,1e12], dilog and Cl2 on +-[1e-300,1e300]) the value returned is finite -- execution of the extracted functions on sets of doubles (gm2v/fpset.py), no sampling.",
+        "(18 loop functions on [1e-14,1e12], dilog and Cl2 on +-[1e-300,1e300]) the value returned is finite -- execution of the extracted functions on sets of doubles (gm2v/fpset.py), no sampling.  The transcribed definitions are compared on every run with the repository's own reference file math/ffunctions.m (C01.spec_source.*).",
    note=NOTE_COMMON + "Undecided remainder (not claimed): IEEE rounding inside each branch (in particular cancellation in the closed forms at large argument and the relative accuracy of Cl2 "
         "next to its zeros, where the rounded argument dominates); relative accuracy of the real dilogarithm next to "
         "the zero of Re Li2 at x = 12.595 (absolute 5e-14 Li2(y) only).",
@@ -31,7 +31,7 @@ CLAIMS = {
         "HOMOGENEITY of Iabc (degree -2) and Phi (degree 1); DEFINITION on every generic path as a ring identity (Fa/Fb vs G3/G4, Ixyz vs I2abc, the Barr-Zee difference quotients, "
         "phi_pos/phi_neg/Phi vs Davydychev-Tausk as in 1607.06292 (68)-(70) through a chain of callee contracts); every near-degenerate EXPANSION (Fa11, Fb11, Fax, Fbx, I0y, I1y, Ixx, l00, "
         "l0v, lv0, the u==v series) has exactly the Taylor coefficients of the definition to the documented order, so limits are approached continuously; documented values at equal, "
-        "1/4 and zero arguments.  BOUNDED stand-in (not a proof): size of the neglected remainders/cancellation on a deterministic sweep of the compiled functions against the 130-digit definition.  PROVED in addition: FPZ(x,x) and FSZ(x,x) equal the documented equal-argument forms for all x in [1e-6,1e12] outside |x-1/4| < 1e-8, the large-argument series of FSZ within 1e-7 (Barr-Zee enclosure of f_PS); f_CSd, f_CSu, phi_over_y equal their definitions.",
+        "1/4 and zero arguments.  BOUNDED stand-in (not a proof): size of the neglected remainders/cancellation on a deterministic sweep of the compiled functions against the 130-digit definition.  PROVED in addition: FPZ(x,x) and FSZ(x,x) equal the documented equal-argument forms for all x in [1e-6,1e12] outside |x-1/4| < 1e-8, the large-argument series of FSZ within 1e-7 (Barr-Zee enclosure of f_PS); f_CSd, f_CSu, phi_over_y equal their definitions.  The transcribed definitions (Fa, Fb, I2abc, FPZ/FSZ/FCWl generic and equal-argument forms, f_CSd, f_CSu, Phi with LambdaK and alpha+-) are compared on every run with the repository's own reference file math/ffunctions.m (C02.spec_source).",
    note=NOTE_COMMON + "Truncation remainders and floating-point cancellation are only covered by the bounded sweep (labelled bounded; ~25000 tuples).  f_CSd, f_CSu and phi_over_y equal their definitions of math/ffunctions.m (1607.06292 (61), (62)) on the generic paths and "
         "phi_over_y returns the documented limits in its two guard windows (that these ARE the limits of Phi/y is A-SPECFN, checked by the replay sweep).  phi_neg's special branches (u==v, u==1) and the inversion identities of Phi are used as documented (A-SPECFN), checked only by the sweep. "
         "One open finding (FCWl for arguments >= 1e4), two fixed (Fa/Fb small arguments, Phi small-u expansion).",
